@@ -157,7 +157,18 @@ def oracle(h, out):
         return None                     # a facade configured with another block size is outside the property
     shadow = {}
     for i, (c, r) in enumerate(zip(h["calls"], out["sgio"]["res"])):
+        if c["m"] == "_ua":
+            continue
         m, pos, kw = c["m"], c["pos"], c["kw"]
+        ut = r.get("ua_terminated") or []
+        if ut:
+            # the target terminated command(s) of this call with CHECK CONDITION / UNIT ATTENTION without performing them
+            if len(ut) == len(r["cdbs"]):
+                if "exn" not in r:
+                    return ("call %d: %s%s returned normally although the target terminated every command of the call (%d) with CHECK CONDITION, "
+                            "UNIT ATTENTION and performed none" % (i, m, tuple(pos[:2]), len(ut)))
+                continue                # reported to the caller, nothing was performed
+            # a later command of the same call was performed: judged like any other call below
         ft = fits(m, pos, kw, bs, nblk)
         if ft is None:
             return None                 # from here on the history is outside the property
@@ -327,6 +338,29 @@ def run(rep, tier, seed, summary):
             if sig not in seen:
                 seen.add(sig)
                 hits.append(dict(kind="c12-history", id=sig, history=h, observed=why))
+    # the same kind of histories with unit attention conditions established by the target in between (implementation + oracle only:
+    # Spec/Target.v has no unit attentions) — a call the target did not perform must not look performed
+    urng = random.Random(seed ^ 0x0A77)
+    ua_hists = []
+    for h in hists[:60 if tier == "quick" else 600]:
+        if h.get("facade_bs", h["bs"]) != h["bs"]:
+            continue
+        calls = list(h["calls"])
+        for _ in range(urng.randint(1, 3)):
+            calls.insert(urng.randrange(len(calls) + 1), dict(m="_ua", n=urng.choice([1, 2, 2, 3])))
+        ua_hists.append(dict(h, calls=calls))
+    ua_outs = run_impl(ua_hists) if ua_hists else []
+    n_ua_bad = 0
+    for h, o in zip(ua_hists, ua_outs):
+        why = oracle(h, o)
+        if why:
+            n_ua_bad += 1
+            sig = "ua: " + re.sub(r"0x[0-9a-f]+|\d+", "N", why)
+            if sig not in seen:
+                seen.add(sig)
+                hits.append(dict(kind="c12-history", id=sig, history=h, observed=why))
+    rep.suite("the same histories with unit attention conditions queued by the target between calls (1-3 at a time), both transports",
+              len(ua_hists), n_ua_bad, samples=[], distribution=dict(ua_events=sum(1 for h in ua_hists for c in h["calls"] if c["m"] == "_ua")))
     new = [h for h in hits if h["id"] not in known]
     for h in hits:
         if h["id"] in known:
